@@ -189,8 +189,57 @@ def _escapes_rule(chk, prog):
         chk.violation(rule, "parse.c", "checkescape", "x", rf.loc, "the reader no longer accepts \\\\xHH, which the printer emits for other bytes")
 
 
+def _fmtbuf_rule(chk, prog):
+    """Numbers are printed with snprintf(dst, N, "%.<P>g", x) and the printer then advances by snprintf's RETURN value -
+    the length the text would have had.  The longest %.<P>g text is sign + P digits + '.' + "e-" + 3 exponent digits
+    = P + 7 characters, so N must be at least P + 8 (with the NUL).  A smaller N silently drops the last characters of
+    the longest numbers (they no longer parse back to the same value) and counts bytes that were never written."""
+    import re
+    rule = "C11-FMTBUF"
+    chk.rule(rule, "every snprintf of a double with %.<P>g has a destination size of at least P + 8")
+    full = Program.load("default", units=["pp.c", "strtod.c"])
+    n = 0
+    for fn in full.all_funcs():
+        for c in fn.calls("snprintf"):
+            if len(c.args) < 4 or "double" not in (strip_casts(c.args[3]).t or ""):
+                continue
+            fmts = []
+            f = strip_casts(c.args[2])
+            if f.k == "str":
+                fmts = [f.d.get("s")]
+            elif f.k == "ref":
+                for x in fn.nodes:
+                    if (x.k == "vardecl" and x.name == f.name and x.kids) or (x.k == "asg" and is_ref(x.kids[0], f.name)):
+                        for y in x.walk():
+                            if y.k == "str":
+                                fmts.append(y.d.get("s"))
+            gs = []
+            for t in fmts:
+                m = re.fullmatch(r"%\.(\d+)g", t or "")
+                if m:
+                    gs.append(int(m.group(1)))
+            if not gs:
+                continue
+            n += 1
+            chk.instance(rule)
+            chk.analysed(fn)
+            size = c.args[1].v
+            need = max(gs) + 8
+            if size is None:
+                raise AnalysisBroken("%s: snprintf size `%s` is not a constant" % (fn.name, c.args[1].text()))
+            if size >= need:
+                chk.ok(rule, "%s: %%.%dg into %d bytes (needs %d)" % (fn.name, max(gs), size, need))
+            else:
+                chk.violation(rule, fn.tu.name, fn.name, "snprintf:%%.%dg" % max(gs), c.loc,
+                              "snprintf(..., %d, \"%%.%dg\", x): the longest output (e.g. -1.2345678901234567e-300) needs %d bytes "
+                              "including the NUL; it is truncated, the printed number parses back to a different value and the "
+                              "printer advances over bytes snprintf never wrote" % (size, max(gs), need))
+    chk.floor(rule, 2, n)
+
+
 def run(chk):
     prog = Program.load("default", units=["parse.c", "pp.c"])
     _confined_rule(chk, prog)
     _clone_rule(chk, prog)
     _escapes_rule(chk, prog)
+    _fmtbuf_rule(chk, prog)
